@@ -354,6 +354,70 @@ def check_recursive_effects(shape):
     return None
 
 
+_SUB = {}
+
+
+def subclass_trait_ops():
+    """Harness-local ops whose symbol / terminator trait is a SUBCLASS of the base trait (as builtin.module's OptionalSymbolOpInterface is) and that are otherwise
+    pure with unused results: the statement's 'not a terminator, not a symbol' must hold for them too."""
+    if not _SUB:
+        from xdsl.dialects.builtin import StringAttr
+        from xdsl.irdl import IRDLOperation, irdl_op_definition, opt_prop_def, prop_def, traits_def, var_result_def
+        from xdsl.traits import IsTerminator, OptionalSymbolOpInterface, Pure, SymbolOpInterface
+
+        class MyTerminator(IsTerminator):
+            pass
+
+        @irdl_op_definition
+        class PureOptSym(IRDLOperation):
+            name = "test.c13_pure_optsym"
+            sym_name = opt_prop_def(StringAttr)
+            outs = var_result_def()
+            traits = traits_def(Pure(), OptionalSymbolOpInterface())
+
+        @irdl_op_definition
+        class PureSym(IRDLOperation):
+            name = "test.c13_pure_sym"
+            sym_name = prop_def(StringAttr)
+            outs = var_result_def()
+            traits = traits_def(Pure(), SymbolOpInterface())
+
+        @irdl_op_definition
+        class PureTerm(IRDLOperation):
+            name = "test.c13_pure_term"
+            outs = var_result_def()
+            traits = traits_def(Pure(), MyTerminator())
+
+        _SUB.update(optsym=PureOptSym, sym=PureSym, term=PureTerm)
+    return _SUB
+
+
+@rechecked
+def check_trait_subclasses(which):
+    from xdsl.dialects.builtin import ModuleOp, StringAttr, i32
+    from xdsl.ir import Block, Region
+    from xdsl.transforms.dead_code_elimination import dce, is_trivially_dead, region_dce, would_be_trivially_dead
+
+    cls = subclass_trait_ops()[which]
+    for entry in ("would_be_trivially_dead", "is_trivially_dead", "region_dce", "dce"):
+        props = {"sym_name": StringAttr("s")} if which != "term" else {}
+        op = cls.create(result_types=[i32], properties=props)
+        if which == "term":
+            module = ModuleOp([mk("write", [], 0, [Region([Block([op])])])])
+        else:
+            module = ModuleOp([op, mk("write", [], 0)])
+        before = str(module)
+        if entry in ("would_be_trivially_dead", "is_trivially_dead"):
+            removed = (would_be_trivially_dead if entry == "would_be_trivially_dead" else is_trivially_dead)(op)
+        else:
+            (region_dce(module.body) if entry == "region_dce" else dce(module))
+            removed = op.parent is None
+        if removed:
+            kindname = {"optsym": "a symbol (trait OptionalSymbolOpInterface, a subclass of SymbolOpInterface)", "sym": "a symbol", "term": "a terminator (trait subclassing IsTerminator)"}[which]
+            return {"entry": entry, "program": before, "after": str(module), "why": f"a pure op with unused results that is {kindname} was treated as removable", "key": "C13/trait-subclasses"}
+    return None
+
+
 def explore_recursive(tier, seed):
     leaves = ["pure", "read", "write", "unknown"]
     shapes = []
@@ -374,9 +438,14 @@ def explore_recursive(tier, seed):
         if f:
             fails.append(f)
             break
-    return {"cases": len(shapes), "failures": fails, "exhaustive": True,
+    for which in ("optsym", "sym", "term"):
+        f = check_trait_subclasses(which)
+        if f:
+            fails.append(f)
+            break
+    return {"cases": len(shapes) + 3, "failures": fails, "exhaustive": True,
             "bound": "ops with RecursiveMemoryEffect nested up to 3 levels over leaf ops with pure / read / write / unknown effects (all combinations of <= 2, thorough: 3 leaves): "
-                     "is_trivially_dead, region_dce and the dce pattern remove the unused outer op exactly when every nested op is harmless"}
+                     "is_trivially_dead, region_dce and the dce pattern remove the unused outer op exactly when every nested op is harmless; pure ops with unused results whose symbol / terminator trait is a SUBCLASS of the base trait are kept by all four entry points"}
 
 
 def explore(tier, seed):
